@@ -215,6 +215,80 @@ func TestVerifC01(t *testing.T) {
 			model[uid] = w
 			uids = append(uids, uid)
 		}
+		// one more series in the same batch whose timestamps and integer columns are an arithmetic progression with
+		// one interior value nudged: still monotone, same first step, same total span, but not a constant step (the
+		// boundary between the constant-delta and the delta column encodings)
+		{
+			k := 4 + r.Intn(6)
+			d := int64(1 + r.Intn(40))
+			offs := make([]int64, k)
+			for i := range offs {
+				offs[i] = int64(i) * 2 * d
+			}
+			if j := 2 + r.Intn(k-3); r.Intn(2) == 0 {
+				offs[j] += d
+			} else {
+				offs[j] -= d
+			}
+			for i := 0; i < k; i++ {
+				uid++
+				ts := win.Add(time.Hour).Add(time.Duration(offs[i]) * time.Millisecond)
+				tags := make([]*modelv1.TagValue, len(c01Tags))
+				tags[0] = tStr(fmt.Sprintf("c%d-nudged", c))
+				tags[1] = tInt(uid)
+				for j := 2; j < len(c01Tags); j++ {
+					tags[j] = genTag(r, c01Tags[j].Type)
+				}
+				tags[2], tags[3] = tStr("const"), tInt(1000+offs[i])
+				w := wrote{ts: ts.UnixNano()}
+				for _, tv := range tags {
+					w.tags = append(w.tags, canonTag(tv))
+				}
+				if kind == "measure" {
+					fields := []*modelv1.FieldValue{fInt(10 + offs[i]), fFloat(float64(offs[i]) / 10), fStr("s"), fBin([]byte("b"))}
+					for _, f := range fields {
+						w.fields = append(w.fields, canonField(f))
+					}
+					pts = append(pts, &measurev1.DataPointValue{Timestamp: timestamppb.New(ts), TagFamilies: []*modelv1.TagFamilyForWrite{{Tags: tags}}, Fields: fields})
+				} else {
+					els = append(els, &streamv1.ElementValue{ElementId: fmt.Sprint("e", uid), Timestamp: timestamppb.New(ts), TagFamilies: []*modelv1.TagFamilyForWrite{{Tags: tags}}})
+				}
+				model[uid] = w
+				uids = append(uids, uid)
+			}
+			s.Count("c01."+kind+".nudged_progression_series", 1)
+			// and small series that share their timestamps with each other (2 or 3 points each, sorted next to each
+			// other inside the part): equal timestamps of different series are different rows
+			np := 2 + r.Intn(2)
+			for _, name := range []string{"pair-a", "pair-b", "pair-c"} {
+				for i := 0; i < np; i++ {
+					uid++
+					ts := win.Add(90 * time.Minute).Add(time.Duration(i) * 7 * time.Millisecond)
+					tags := make([]*modelv1.TagValue, len(c01Tags))
+					tags[0] = tStr(fmt.Sprintf("c%d-%s", c, name))
+					tags[1] = tInt(uid)
+					for j := 2; j < len(c01Tags); j++ {
+						tags[j] = genTag(r, c01Tags[j].Type)
+					}
+					w := wrote{ts: ts.UnixNano()}
+					for _, tv := range tags {
+						w.tags = append(w.tags, canonTag(tv))
+					}
+					if kind == "measure" {
+						fields := []*modelv1.FieldValue{fInt(genInt(r)), fFloat(genFloat(r)), fStr(genStr(r)), fBin([]byte(genStr(r)))}
+						for _, f := range fields {
+							w.fields = append(w.fields, canonField(f))
+						}
+						pts = append(pts, &measurev1.DataPointValue{Timestamp: timestamppb.New(ts), TagFamilies: []*modelv1.TagFamilyForWrite{{Tags: tags}}, Fields: fields})
+					} else {
+						els = append(els, &streamv1.ElementValue{ElementId: fmt.Sprint("e", uid), Timestamp: timestamppb.New(ts), TagFamilies: []*modelv1.TagFamilyForWrite{{Tags: tags}}})
+					}
+					model[uid] = w
+					uids = append(uids, uid)
+				}
+			}
+			s.Count("c01."+kind+".series_sharing_timestamps", 3)
+		}
 		var acked []bool
 		var werr error
 		if kind == "measure" {
@@ -349,10 +423,12 @@ func TestVerifC01(t *testing.T) {
 		// sub-windows whose edges are stored timestamps (part / primary-block / block time pruning): ids only
 		if nAck > 1 {
 			var tsList []int64
-			byTS := map[int64]int64{}
+			byTS := map[int64][]int64{} // several series may share a timestamp
 			for u, w := range model {
-				tsList = append(tsList, w.ts)
-				byTS[w.ts] = u
+				if len(byTS[w.ts]) == 0 {
+					tsList = append(tsList, w.ts)
+				}
+				byTS[w.ts] = append(byTS[w.ts], u)
 			}
 			sort.Slice(tsList, func(i, j int) bool { return tsList[i] < tsList[j] })
 			tails := min(len(tsList), min(nSeries+1, 8))
@@ -370,7 +446,9 @@ func TestVerifC01(t *testing.T) {
 				wtr := &modelv1.TimeRange{Begin: timestamppb.New(time.Unix(0, tsList[a])), End: timestamppb.New(time.Unix(0, tsList[b]))}
 				want := map[int64]bool{}
 				for _, tsv := range tsList[a : b+1] {
-					want[byTS[tsv]] = true
+					for _, u := range byTS[tsv] {
+						want[u] = true
+					}
 				}
 				got := map[int64]bool{}
 				uproj := &modelv1.TagProjection{TagFamilies: []*modelv1.TagProjection_TagFamily{{Name: "default", Tags: []string{"uid"}}}}
